@@ -157,6 +157,12 @@ def main(tier, replay=None):
         for n in [0, 1, r - 1 if r > 1 else 5, r if r > 0 else 6, r * r if r > 1 else 7, 35, 36, 255, 2 ** 31, 2 ** 39 - 1, -1, -255] + \
                  [rng.randrange(0, 2 ** 39) for _ in range(20 if quick else 1500)] + list(range(0, 60 if quick else 3001, 1 if not quick else 7)):
             O.base(n, r)
+        if r >= 2:      # every exact power of the radix below 2^39, and its neighbours (digit-count boundaries)
+            pw = r
+            while pw < 2 ** 39:
+                for n in (pw - 1, pw, pw + 1):
+                    O.base(n, r)
+                pw *= r
     for form in range(0, 5):
         for n in (range(1, 4000) if not quick else list(range(1, 4000, 9)) + [4, 9, 14, 40, 45, 49, 90, 99, 400, 490, 495, 499, 900, 990, 995, 999, 1999, 3999]):
             O.roman(n, form)
